@@ -329,6 +329,73 @@ func c16Rules(p *core.Prog, r *core.Run) {
 		}
 	}
 	r.Check("C16.RACE0", "census", nBad == 0, p.Pos(rs.Pos()), "functions reachable from Resolve store to no global and no Resolver field (%d found)", nBad)
+
+	// the container all lookups share: each of its operations takes the
+	// container's own lock first, or the resolver holds a lock of its own
+	// around the call
+	cacheF := field(p, Ech, "Resolver", "cache")
+	var resolverMus []*types.Var
+	if resolverType != nil {
+		if st, ok := resolverType.Type().Underlying().(*types.Struct); ok {
+			for i := 0; i < st.NumFields(); i++ {
+				if t := st.Field(i).Type().String(); t == "sync.Mutex" || t == "sync.RWMutex" {
+					resolverMus = append(resolverMus, st.Field(i))
+				}
+			}
+		}
+	}
+	nOps := 0
+	for _, fn := range reachableFuncs(p, rs) {
+		if !inModule(p, fn) {
+			continue
+		}
+		var states []map[ssa.Instruction]int
+		for _, s := range allCalls(p, []*ssa.Function{fn}) {
+			c := s.Instr.Common()
+			if cacheF == nil || len(c.Args) == 0 || c.IsInvoke() {
+				continue
+			}
+			recv := p.X(c.Args[0])
+			if !(recv.Op == "field" && recv.Obj == cacheF) {
+				continue
+			}
+			nOps++
+			callee := c.StaticCallee()
+			own := false
+			if callee != nil && len(callee.Blocks) > 0 && len(callee.Params) > 0 {
+				for _, in := range callee.Blocks[0].Instrs {
+					cc, isCall := in.(*ssa.Call)
+					if !isCall {
+						continue
+					}
+					if sc := cc.Call.StaticCallee(); sc != nil && len(cc.Call.Args) == 1 {
+						switch sc.String() {
+						case "(*sync.RWMutex).RLock", "(*sync.RWMutex).Lock", "(*sync.Mutex).Lock":
+							if fa, isFA := cc.Call.Args[0].(*ssa.FieldAddr); isFA && fa.X == ssa.Value(callee.Params[0]) {
+								own = true
+							}
+						}
+					}
+					break // the first call decides
+				}
+			}
+			held := false
+			if !own {
+				if states == nil {
+					for _, mu := range resolverMus {
+						states = append(states, lockStates(p, fn, mu))
+					}
+				}
+				for _, st := range states {
+					if st[s.Instr] == lkW {
+						held = true
+					}
+				}
+			}
+			r.Check("C16.RACE0", fmt.Sprintf("container:%s:%s#%d", p.FuncName(fn), lastDot(s.X.Name), nOps), own || held, p.InstrPos(s.Instr), "%s on the cache all lookups share begins by taking the container's own lock (%v) or runs under a lock of the resolver (%v)", s.X.Name, own, held)
+		}
+	}
+	r.Check("C16.RACE0", "container", nOps >= 3, p.Pos(rs.Pos()), "operations on the shared cache found under Resolve: %d", nOps)
 }
 
 // lockStates computes, for every instruction of fn, the state of the mutex
